@@ -183,6 +183,18 @@ func (m *Machine) chooseG(en []*G, cur *G) int {
 	return m.Choose(len(en), "sched")
 }
 
+// chooseSelect picks among n ready cases of a select. Go picks at random, so every case is
+// explored - except under the entry option select_first: the first ready case in source order is
+// taken. (For contracts of code that uses cancellable worker pools internally and does not depend
+// on which worker notices a cancellation first: every cancel() makes two cases of the workers'
+// selects ready and would double the paths.)
+func (m *Machine) chooseSelect(n int) int {
+	if n == 1 || m.Opt.SelectFirst {
+		return 0
+	}
+	return m.Choose(n, "select")
+}
+
 func (m *Machine) deadlock() {
 	detail := "all goroutines blocked:"
 	for _, g := range m.gs {
@@ -449,7 +461,7 @@ func (m *Machine) doSelect(fr *Frame, instr *ssa.Select) Value {
 			}
 		}
 		if len(ready) > 0 {
-			i := ready[m.Choose(len(ready), "select")]
+			i := ready[m.chooseSelect(len(ready))]
 			c := cases[i]
 			if c.send {
 				if c.ch.closed {
